@@ -1,5 +1,6 @@
 """C08 factorisation modulo a prime: factorize_mod_p and its stages squarefree / degree / final_split, plus the
 primitives of src/poly_mod/prim.rs they are built from."""
+import lib
 from lib import line, Id, Case
 from props.polymod_common import *
 
@@ -211,6 +212,8 @@ def structured(rng, p, maxdeg):
 
 NEEDS_CLI = True
 
+PROFILES = ('debug', 'release')
+
 def cases(rng, tier):
     th = tier == 'thorough'
     out = []
@@ -366,4 +369,6 @@ def cases(rng, tier):
                         oracle=(lambda f=f, q=q: (lambda ia: None if ia.kind == 'ok' and ia.val != Id('cli_failed') and o_factorize(f, q)(_Wrap(ia.val)) is None
                                                    else 'CLI factorization-mod-p of %s mod %s: %s' % (f, q, ia.raw[:120])))(),
                         always_oracle=True, tag='cli'))
+    # a slice of the cases again on the release build of the implementation (wrapping arithmetic, debug assertions off)
+    out += lib.release_slice(out, rng, 0.08, mode_ops=('pm_factorize', 'pm_squarefree'), plain_ops=())
     return out
